@@ -193,6 +193,15 @@ def _shard_entry(args):
                 "excluded": {}, "extra": {}, "wall_s": 0.0, "seed": seed}
 
 
+def _kill_pool(ex):
+    for p in list(getattr(ex, "_processes", {}).values()):
+        try:
+            p.kill()
+        except Exception:
+            pass
+    ex.shutdown(wait=False, cancel_futures=True)
+
+
 def load_known():
     path = os.path.join(VERIF_DIR, "known_findings.json")
     if not os.path.exists(path):
@@ -272,9 +281,22 @@ def run_check(mod, prop, tier, seed, shards=None, scale=1.0, opts=None):
     if nshards == 1:
         results = [_shard_entry(args[0])]
     else:
+        import concurrent.futures as cf
+
         mpctx = multiprocessing.get_context("fork")
-        with mpctx.Pool(min(nshards, os.cpu_count() or 1)) as pool:
-            results = pool.map(_shard_entry, args, chunksize=1)
+        budget = float(os.environ.get("VERIF_BUDGET_S", "900" if tier == "quick" else "14400"))
+        ex = cf.ProcessPoolExecutor(min(nshards, os.cpu_count() or 1), mp_context=mpctx)
+        try:
+            results = list(ex.map(_shard_entry, args, timeout=budget))
+        except cf.TimeoutError:
+            print(f"INCONCLUSIVE: {prop} shards did not finish within the {budget:.0f} s wall budget")
+            _kill_pool(ex)
+            return 2
+        except cf.process.BrokenProcessPool as e:
+            print(f"HARNESS-ERROR: a shard process died ({e})")
+            _kill_pool(ex)
+            return 2
+        ex.shutdown()
 
     errors = [r for r in results if r.get("error")]
     inconclusive = [r for r in results if r.get("inconclusive")]
